@@ -402,6 +402,11 @@ def run(ctx) -> None:
     check_hit_restores_sentinel(ctx, "C09.R9")
 
     # ---- R6 / R7 -----------------------------------------------------------------
+    # only what a node computed is stored: the answer a caller supplies for an interrupt is used as given — it is
+    # neither looked up nor filed as the node's result (else a later run that should pause is served the human's answer)
+    from .c14 import check_resume_bypasses_cache
+
+    check_resume_bypasses_cache(ctx, "C09.R6")
     ccfg = ctx.cfg(cc)
     cdom = dominators(ccfg.entry)
 
